@@ -1,14 +1,14 @@
 package sym
 
 import (
-	"unicode"
-	"os"
-	"time"
 	"fmt"
 	"go/token"
 	"go/types"
 	"math/bits"
+	"os"
 	"strings"
+	"time"
+	"unicode"
 
 	"github.com/cespare/xxhash/v2"
 	"golang.org/x/tools/go/ssa"
@@ -239,7 +239,214 @@ func (p *Program) installIntrinsics() {
 	in["time.Now"] = func(fr *frame, a []Value) Value {
 		return zero(fr.fn.Signature.Results().At(0).Type())
 	}
-	in["time.Since"] = func(fr *frame, a []Value) Value { return K(64, 0) }
+	// generated protobuf messages: String() is the text form, whose bytes are unspecified
+	in["(google.golang.org/protobuf/internal/impl.Export).MessageStringOf"] = func(fr *frame, a []Value) Value {
+		fr.m.noteOnce("approx: protobuf text form (String()) replaced by an injective canonical rendering of the message")
+		return fr.m.canonStr(a[1], 0)
+	}
+	// syscall.Errno: text and classification without the package's tables
+	in["(syscall.Errno).Error"] = func(fr *frame, a []Value) Value {
+		t := a[0].(*Term)
+		if !t.IsConst() {
+			unsupportedf("symbolic errno")
+		}
+		return MkStr(errnoText(t.val))
+	}
+	in["(syscall.Errno).Is"] = func(fr *frame, a []Value) Value {
+		m := fr.m
+		t := a[0].(*Term)
+		if !t.IsConst() {
+			unsupportedf("symbolic errno")
+		}
+		target := a[1].(Iface)
+		is := func(name string) bool {
+			sp := m.P.byPath["internal/oserror"]
+			if sp == nil {
+				return false
+			}
+			g, ok := sp.Members[name].(*ssa.Global)
+			if !ok {
+				return false
+			}
+			e := valueEq(*m.global(g), target)
+			return e.IsConst() && e.val == 1
+		}
+		switch {
+		case is("ErrPermission"):
+			return KB(t.val == 13 || t.val == 1)
+		case is("ErrExist"):
+			return KB(t.val == eEXIST || t.val == 39)
+		case is("ErrNotExist"):
+			return KB(t.val == eNOENT)
+		}
+		return falseT
+	}
+	// the clock is an environment input: every reading of an elapsed time is an arbitrary
+	// non-negative duration (not a harness input: natively the real clock is used)
+	in["time.Since"] = func(fr *frame, a []Value) Value {
+		m := fr.m
+		m.nseq++
+		d := Var(fmt.Sprintf("v%d_elapsed", m.nseq), 64)
+		m.vars[d.name] = 64
+		m.assume(Cmp(OpSle, K(64, 0), d))
+		m.noteOnce("environment: time.Since returns an arbitrary non-negative duration")
+		return d
+	}
+	in["time.Sleep"] = func(fr *frame, a []Value) Value {
+		fr.m.schedPoint() // sleeping lets other goroutines run; time itself is not modelled
+		return nil
+	}
+	for _, fn := range []string{"Print", "Printf", "Println"} {
+		in["log."+fn] = func(fr *frame, a []Value) Value { return nil }
+	}
+	exit := func(what string) intrinsicFn {
+		return func(fr *frame, a []Value) Value {
+			panic(targetPanic{v: Iface{t: fr.m.P.runtimeErrorString, v: MkStr("the process exits (" + what + ")")}, pos: "process exit"})
+		}
+	}
+	in["os.Exit"] = exit("os.Exit")
+	for _, fn := range []string{"Fatal", "Fatalf", "Fatalln"} {
+		in["log."+fn] = exit("log." + fn)
+		in["(*log.Logger)."+fn] = exit("log.Logger." + fn)
+	}
+	// sync/atomic on pointers (atomic.Pointer[T] and hand-written lock-free publication)
+	in["sync/atomic.LoadPointer"] = func(fr *frame, a []Value) Value {
+		fr.m.schedPoint()
+		p := a[0].(*Value)
+		if p == nil {
+			fr.m.runtimePanic(fr, token.NoPos, "invalid memory address or nil pointer dereference")
+		}
+		fr.m.hbAcquire(p)
+		return *p
+	}
+	in["sync/atomic.StorePointer"] = func(fr *frame, a []Value) Value {
+		fr.m.schedPoint()
+		p := a[0].(*Value)
+		if p == nil {
+			fr.m.runtimePanic(fr, token.NoPos, "invalid memory address or nil pointer dereference")
+		}
+		fr.m.hbRelease(p)
+		*p = a[1]
+		return nil
+	}
+	in["sync/atomic.SwapPointer"] = func(fr *frame, a []Value) Value {
+		fr.m.schedPoint()
+		p := a[0].(*Value)
+		fr.m.hbAcquire(p)
+		fr.m.hbRelease(p)
+		old := *p
+		*p = a[1]
+		return old
+	}
+	in["sync/atomic.CompareAndSwapPointer"] = func(fr *frame, a []Value) Value {
+		m := fr.m
+		m.schedPoint()
+		p := a[0].(*Value)
+		m.hbAcquire(p)
+		m.hbRelease(p)
+		if eq := valueEq(*p, a[1]); eq.IsConst() && eq.val == 1 {
+			*p = a[2]
+			return trueT
+		}
+		return falseT
+	}
+	// atomic.Value: a cell holding an interface value
+	atomicVal := func(fr *frame, v Value) *Value {
+		p := v.(*Value)
+		if p == nil {
+			fr.m.runtimePanic(fr, token.NoPos, "invalid memory address or nil pointer dereference")
+		}
+		if fr.m.atomicVals == nil {
+			fr.m.atomicVals = map[*Value]*Value{}
+		}
+		c := fr.m.atomicVals[p]
+		if c == nil {
+			var cell Value = Iface{}
+			c = &cell
+			fr.m.atomicVals[p] = c
+		}
+		return c
+	}
+	in["(*sync/atomic.Value).Load"] = func(fr *frame, a []Value) Value {
+		fr.m.schedPoint()
+		c := atomicVal(fr, a[0])
+		fr.m.hbAcquire(c)
+		return *c
+	}
+	in["(*sync/atomic.Value).Store"] = func(fr *frame, a []Value) Value {
+		fr.m.schedPoint()
+		c := atomicVal(fr, a[0])
+		if a[1].(Iface).t == nil {
+			panic(targetPanic{v: Iface{t: fr.m.P.runtimeErrorString, v: MkStr("sync/atomic: store of nil value into Value")}, pos: "sync/atomic"})
+		}
+		fr.m.hbRelease(c)
+		*c = a[1]
+		return nil
+	}
+	in["(*sync/atomic.Value).Swap"] = func(fr *frame, a []Value) Value {
+		fr.m.schedPoint()
+		c := atomicVal(fr, a[0])
+		fr.m.hbAcquire(c)
+		fr.m.hbRelease(c)
+		old := *c
+		*c = a[1]
+		return old
+	}
+	// sync.Cond
+	condOf := func(fr *frame, v Value) *condState {
+		p := v.(*Value)
+		if fr.m.conds == nil {
+			fr.m.conds = map[*Value]*condState{}
+		}
+		c := fr.m.conds[p]
+		if c == nil {
+			c = &condState{}
+			fr.m.conds[p] = c
+		}
+		return c
+	}
+	condLocker := func(fr *frame, v Value) Iface {
+		st := (*v.(*Value)).(Struct)
+		for _, f := range st {
+			if it, ok := f.(Iface); ok && it.t != nil {
+				return it
+			}
+		}
+		unsupportedf("sync.Cond without a Locker")
+		return Iface{}
+	}
+	in["(*sync.Cond).Wait"] = func(fr *frame, a []Value) Value {
+		m := fr.m
+		c := condOf(fr, a[0])
+		l := condLocker(fr, a[0])
+		ticket := c.next
+		c.next++
+		m.callMethod(fr, l, "Unlock")
+		m.waitUntil(func() bool { return c.released > ticket }, "sync.Cond.Wait")
+		m.hbAcquire(c)
+		m.callMethod(fr, l, "Lock")
+		return nil
+	}
+	in["(*sync.Cond).Signal"] = func(fr *frame, a []Value) Value {
+		m := fr.m
+		m.schedPoint()
+		c := condOf(fr, a[0])
+		m.hbRelease(c)
+		if c.released < c.next {
+			c.released++
+		}
+		m.notifyAll()
+		return nil
+	}
+	in["(*sync.Cond).Broadcast"] = func(fr *frame, a []Value) Value {
+		m := fr.m
+		m.schedPoint()
+		c := condOf(fr, a[0])
+		m.hbRelease(c)
+		c.released = c.next
+		m.notifyAll()
+		return nil
+	}
 	in["log.New"] = func(fr *frame, a []Value) Value {
 		cell := zero(deref(fr.fn.Signature.Results().At(0).Type()))
 		return &cell
@@ -257,6 +464,7 @@ func (p *Program) installIntrinsics() {
 		fr.m.sortSlice(fr, a[0].(Iface), a[1])
 		return nil
 	}
+	in["sort.SliceStable"] = in["sort.Slice"] // the engine's sort is a (stable) merge sort
 	in["sort.Strings"] = func(fr *frame, a []Value) Value {
 		fr.m.sortStrings(fr, a[0].(Slice))
 		return nil
@@ -437,6 +645,11 @@ func (m *Machine) errorsIs(fr *frame, err, target Iface) Value {
 		eq := valueEq(err, target)
 		if m.branch(eq) {
 			return trueT
+		}
+		if r, ok := m.callMethod(fr, err, "Is", target); ok {
+			if t, isT := r.(*Term); isT && m.branch(t) {
+				return trueT
+			}
 		}
 		u, ok := m.callMethod(fr, err, "Unwrap")
 		if !ok {
